@@ -15,6 +15,9 @@ def cases(ctx):
     import bellows.types as t
     cs = [("ember", c) for c in range(256)] + [("ezsp", c) for c in range(256)]
     cs += [("sl", int(m)) for m in t.sl_Status]
+    # the conversion is a function: the same status again (in another order, after other families) gives the same answer
+    cs += [("ezsp", c) for c in range(255, -1, -1)] + [("ember", c) for c in range(255, -1, -1)]
+    cs += [(ctx.rng.choice(["ember", "ezsp"]), ctx.rng.randrange(256)) for _ in range(ctx.n(1000, 10000))]
     n = ctx.n(2000, 50000)
     cs += [("sl", ctx.rng.getrandbits(32)) for _ in range(n)]
     return cs
@@ -56,7 +59,7 @@ def run(ctx, big=False):
             ctx.corr_diff(f"from_ember_status({f} {c}) differs", {"family": f, "code": c}, got, model[i])
         if i % 97 == 0:
             ctx.sample({"family": f, "code": c, "impl": got, "model": model[i] if model else None})
-    ctx.cov["rule"] = ("all 256 codes of EmberStatus and EzspStatus (defined and undefined), every defined sl_Status, "
+    ctx.cov["rule"] = ("all 256 codes of EmberStatus and EzspStatus (defined and undefined) converted in ascending order, again in descending order and again at random (one process: repeated conversions), every defined sl_Status, "
                        "seeded random 32-bit unified values; distinct = distinct (family, code); every case is non-trivial "
                        "(each exercises the conversion); the 8-bit families are enumerated completely")
     ctx.exhaustive = True
@@ -69,6 +72,9 @@ def replay(ctx, obj):
     r = obj["replay"]
     got = _impl(r["family"], r["code"])
     bad = oracle(r["family"], r["code"], got)
+    if not bad:   # a repeated conversion
+        got = _impl(r["family"], r["code"])
+        bad = oracle(r["family"], r["code"], got)
     print(f"replay: from_ember_status({r['family']} {r['code']}) = {got}: {'FAILS: ' + bad if bad else 'ok'}")
     if bad:
         print(f"VIOLATION property={ctx.pid} replay={obj.get('path', 'replay')}")
